@@ -1,16 +1,24 @@
 ------------------------------ MODULE C19_MC ------------------------------
 EXTENDS C19_HttpAuth, Json
 
+MCVerifiersNone == {}
 MCVerifiersS == {"S"}
 MCVerifiersBoth == {"S", "S2"}
+\* S at both hostnames, the other secret at one of them
+MCPlaces3 == {<<"S", "h1">>, <<"S", "h2">>, <<"S2", "h1">>}
+MCPlaces4 == {<<"S", "h1">>, <<"S", "h2">>, <<"S2", "h1">>, <<"S2", "h2">>}
+MCPlacesS == {<<"S", "h1">>, <<"S", "h2">>}
 
 \* compact JSON-able projection of the VIEW'd state (every printed edge carries two of them):
-\* << now, nn, opaques as tuples, signatures as tuples, client session, sessions started >>
+\* << now, opaques as tuples, signatures as tuples, client session, sessions started, client nonces >>
 OpT(o) == <<o.mac, o.tok, o.cpk, o.pid, o.ch, o.host, o.t>>
 SgT(g) == <<g.key, g.kind, g.ch, g.pub, g.host>>
-St == << now, nn, {OpT(o) : o \in ops}, {SgT(g) : g \in sigs}, <<cli.st, cli.host, cli.chS, cli.spk>>, ncli >>
-EmitEdge == PrintT(<<"VFEDGE", ToJson([s |-> St, op |-> op', t |-> St'])>>)
+St == << now, {OpT(o) : o \in ops}, {SgT(g) : g \in sigs}, <<cli.st, cli.host, cli.chS, cli.spk>>, ncli, cn >>
+\* the op record with its blobs and signatures as tuples
+OpJ(r) == [x \in DOMAIN r |-> IF x = "o" THEN OpT(r[x]) ELSE IF x \in {"sig", "signed"} THEN SgT(r[x]) ELSE r[x]]
+EmitEdge == PrintT(<<"VFEDGE", ToJson([s |-> St, op |-> OpJ(op'), t |-> St'])>>)
 Conf == [maxt |-> MaxT, chalttl |-> ChalTTL, tokttl |-> TokTTL, maxmint |-> MaxMint, maxtok |-> MaxTok,
-         maxcli |-> MaxCli, s2samekey |-> S2SameKey, verifiers |-> Verifiers, rich |-> Rich]
+         maxcli |-> MaxCli, s2samekey |-> S2SameKey, verifiers |-> Verifiers, explicit |-> Explicit,
+         chost |-> CHost, rich |-> Rich]
 MCInit == Init /\ PrintT(<<"VFINIT", ToJson(St)>>) /\ PrintT(<<"VFCONF", ToJson(Conf)>>)
 =============================================================================
